@@ -301,7 +301,9 @@ def plan(ctx):
                      "get_PropagationMatrix: the perturbative correction terms (corrections >= 0); rate matrices with a "
                      "complex spectrum; ValueAxis.is_subset_of (floating-point `in` tests)"]
     p.trusted = ["numpy.linalg.eig returns (Kd, SS) with K SS = SS diag(Kd), numpy.linalg.inv the two-sided inverse; real spectrum",
-                 "exp(K t) = SS diag(exp(Kd t)) S1 for a diagonalisable K; exp(y)^k = exp(k y)"]
+                 "exp(K t) = SS diag(exp(Kd t)) S1 for a diagonalisable K; exp(y)^k = exp(k y)",
+                 "axioms of the uninterpreted power pw(x, k): pw(x, 0) = 1 and, for x > 0 and every integer k, pw(x, k) = x pw(x, k-1)",
+                 "TimeAxis.is_subset_of answers True in the set-ups (the other answer raises before anything is computed)"]
     p.api_preconditions = ["PopulationPropagator conserves the total only for rate matrices with zero column sums "
                            "(what RateMatrix histories guarantee); arbitrary arrays passed as rate_matrix are the caller's"]
     return p
